@@ -124,6 +124,8 @@ def group_for(cps, dense_ranges=True):
         for ei in range(si, len(b)):
             g.append("R %d %d" % (b[si], b[ei]))
             q.append(("R", b[si], b[ei], si, ei))
+            g.append("K %d %d" % (b[si], b[ei]))
+            q.append(("K", b[si], b[ei], si, ei))
     return g, q
 
 
@@ -163,6 +165,11 @@ def monitor(ctx, cps, qs, outs):
             if back != q[1]:
                 ctx.violation("offset -> position -> offset does not return the offset",
                               {"text": cps, "offset": q[1], "position": U[q[1]]}, q[1], back)
+        elif q[0] == "K":
+            a, z = map(int, o.split())
+            if (a, z) != (q[3], q[4]):
+                ctx.violation("the character span of a byte span (CharSpan::from, what the CLI and the playground attach to a diagnostic) is not "
+                              "(characters before its start, characters before its end)", {"text": cps, "span": [q[1], q[2]]}, [q[3], q[4]], [a, z])
         elif q[0] == "R" and wf:
             si, ei = q[3], q[4]
             ins = lambda k: k > 0 and cps[k - 1] == 13 and k < len(cps) and cps[k] == 10
@@ -174,6 +181,26 @@ def monitor(ctx, cps, qs, outs):
             if sel != exp:
                 ctx.violation("the range sent for a span does not select the span's text in the client's document",
                               {"text": cps, "span": [q[1], q[2]], "range": [l1, c1, l2, c2]}, exp, sel)
+
+
+def charspans(triples):
+    """[(text, s, e)] -> [(start, end) | None]: CharSpan::from of the implementation for byte spans of python strings"""
+    lines = []
+    for t, a, z in triples:
+        cps = [ord(c) for c in t]
+        lines.append("T %d %s" % (len(cps), " ".join(map(str, cps))))
+        lines.append("K %d %d" % (a, z))
+    if not lines:
+        return []
+    rc, out, err = core.run_layer(core.IMPL, "pos", None, shards=[lines])[0]
+    res = []
+    for k in range(len(triples)):
+        try:
+            a, z = out[2 * k + 1].split()
+            res.append((int(a), int(z)))
+        except Exception:
+            res.append(None)
+    return res
 
 
 def run_texts(ctx, texts, with_model=True, label="enum"):
